@@ -9,6 +9,10 @@ mod c03;
 mod c04;
 mod c05;
 mod c06;
+mod c07;
+mod c08;
+mod c09;
+mod c10;
 
 use common::*;
 
@@ -28,6 +32,10 @@ fn main() {
         "c04" => c04::run(&args),
         "c05" => c05::run(&args),
         "c06" => c06::run(&args),
+        "c07" => c07::run(&args),
+        "c08" => c08::run(&args),
+        "c09" => c09::run(&args),
+        "c10" => c10::run(&args),
         "c05depth" => c05::run_depth(&args),
         "c05case" => c05::run_one(&args),
         other => {
